@@ -82,6 +82,15 @@ func init() {
 					}}
 					newLockAnalysis(cc, []string{"lockc"}).ruleGuarded(r, "LOCK-2", cfg)
 				}, WantFail: []string{"lockc.(*Bad).Len#table:read", "lockc.(*Bad).Set#table:write", "lockc.(*Bad).Early#n:read"}, WantPassMin: 4},
+			{Name: "LOCK-6", What: "values obtained from guarded fields (table entries, nodes, their blocks) are dereferenced only while the mutex is held", Floor: 40,
+				Run: func(c *Ctx, r *Rep, tier string) { get(c).ruleDerived(r, "LOCK-6", buildLockCfg(c, "bgzf/cache")) },
+				Canary: func(cc *Ctx, r *Rep) {
+					cfg := lockCfg{guarded: map[*types.Var][]*types.Var{
+						cc.Field("lockc", "Bad", "mu"):  {cc.Field("lockc", "Bad", "table"), cc.Field("lockc", "Bad", "n"), cc.Field("lockc", "Bad", "nodes")},
+						cc.Field("lockc", "Good", "mu"): {cc.Field("lockc", "Good", "table"), cc.Field("lockc", "Good", "n")},
+					}}
+					newLockAnalysis(cc, []string{"lockc"}).ruleDerived(r, "LOCK-6", cfg)
+				}, WantFail: []string{"lockc.(*Bad).PeekLate#derived:field read through", "lockc.(*Bad).Len#derived:call with"}, WantPassMin: 2},
 			{Name: "LOCK-3", What: "every acquisition is released (directly or by defer) on every path to a return", Floor: 25,
 				Run:    func(c *Ctx, r *Rep, tier string) { get(c).ruleReleaseOnExit(r, "LOCK-3") },
 				Canary: func(cc *Ctx, r *Rep) { newLockAnalysis(cc, []string{"lockc"}).ruleReleaseOnExit(r, "LOCK-3") }, WantFail: []string{"lockc.(*Bad).Leak#mu.Lock"}, WantPassMin: 4},
